@@ -193,7 +193,8 @@ def rand_spec(rng, opts=None):
 
 def systematic_specs():
     """Exhaustive small family: two transactions reaching one exclusive leaf E directly, through a nonexclusive
-    method N, through an exclusive method X or through an alias, with T1's two call sites in If/Else alternatives."""
+    method N, through an exclusive method X or through an alias, with T1's two call sites in If/Else alternatives;
+    plus one transaction with two NON-exclusive call sites of E through the same / different Method objects."""
     def meth(name, nonex, body, iw=0, ow=0):
         return dict(name=name, nonexcl=nonex, iw=iw, ow=ow, ready_free=True, validate=None, combiner=None, body=body,
                     single_caller=False, nested_in=None)
@@ -219,6 +220,72 @@ def systematic_specs():
             methods = [meth("E", False, [], 2, 2), meth("N", True, [["call", 0, False, 0]]), meth("X", False, [["call", 0, False, 0]])]
             out.append(dict(methods=methods, transactions=[dict(name="T0", body=[list(kinds[ka])], nested=[]), dict(name="T1", body=[list(kinds[kc])], nested=[])],
                             relations=[], groups=[["plain", [0]], ["plain", [1]]], group_module=[0, 0], mgroups=[], witness=False))
+    # one transaction reaching E at two call sites that are NOT mutually exclusive (in sequence / in two sibling Ifs), through the
+    # same or through different Method objects (direct, one or two provide() aliases, via N / X): rejected unless both go through N
+    kinds2 = dict(kinds, alias2=["call", 0, False, 2])
+    names2 = list(kinds2)
+    for ia, ka in enumerate(names2):
+        for kb in names2[ia:]:
+            for shape in ("seq", "ifs"):
+                methods = [meth("E", False, [], 2, 2), meth("N", True, [["call", 0, False, 0]]), meth("X", False, [["call", 0, False, 0]])]
+                a, b = list(kinds2[ka]), list(kinds2[kb])
+                body = [a, b] if shape == "seq" else [["if", [[a]], False], ["sif", [b]]]
+                out.append(dict(methods=methods, transactions=[dict(name="T0", body=body, nested=[]), dict(name="T1", body=[["call", 0, False, 0]], nested=[])],
+                                relations=[], groups=[["plain", [0]], ["plain", [1]]], group_module=[0, 0], mgroups=[], witness=False))
+    return out
+
+
+def systematic_relation_specs():
+    """Small fixed family around explicit relations:
+    (1) add_conflict (t-t / m-m, all priorities) between two transactions that sit in DIFFERENT alternatives at the same position of
+        two separate module-level If / Switch / FSM structures, in two TModules or in one (not mutually exclusive: both may run);
+    (2) a prioritised method-method conflict lifted to several caller pairs one of which is mutually exclusive by control path
+        and is visited first, with extra conflicts that turn the default tie-break against the high-priority transaction;
+    (3) bodies with two ready-dependency sources (nesting + explicit schedule_before(ready_dependent=True), two explicit ones)."""
+    def meth(name, body=(), nonex=False):
+        return dict(name=name, nonexcl=nonex, iw=0, ow=0, ready_free=True, validate=None, combiner=None, body=list(body),
+                    single_caller=False, nested_in=None)
+
+    def tr(name, body, nested=()):
+        return dict(name=name, body=list(body), nested=list(nested))
+
+    out = []
+    for kind in ("if", "switch", "fsm"):
+        for rel in ("tt", "mm"):
+            for prio in ("U", "L", "R"):
+                for mods in ([1, 2], [0, 1], [0, 0]):
+                    methods = [meth("M0"), meth("M1")]
+                    trs = [tr("T0", [["call", 0, False, 0]]), tr("T1", [["call", 1, False, 0]])]
+                    g0 = [kind, [[0], []], True] if kind != "fsm" else [kind, [[0], []]]
+                    g1 = [kind, [[], [1]], True] if kind != "fsm" else [kind, [[], [1]]]
+                    r = ["conflict", ["t", 0], ["t", 1], prio] if rel == "tt" else ["conflict", ["m", 0], ["m", 1], prio]
+                    out.append(dict(methods=methods, transactions=trs, relations=[r], groups=[g0, g1], group_module=list(mods), mgroups=[], witness=False))
+    for form in ("L", "R"):
+        for excl_first in (True, False):
+            # hp (0) called by tH, lp (1) called by tL1 and tL2, S (2) shared by tH, tS1, tS2; tH and tL1 in alternatives of one If
+            methods = [meth("hp"), meth("lp"), meth("S")]
+            tL1, tH = tr("tL1", [["call", 1, False, 0]]), tr("tH", [["call", 0, False, 0], ["call", 2, False, 0]])
+            tL2, tS1, tS2 = tr("tL2", [["call", 1, False, 0]]), tr("tS1", [["call", 2, False, 0]]), tr("tS2", [["call", 2, False, 0]])
+            if excl_first:   # creation order: tL1, tH, tL2, ... (the exclusive pair (tH, tL1) is visited before (tH, tL2))
+                trs, groups = [tL1, tH, tL2, tS1, tS2], [["if", [[0], [1]], True], ["plain", [2]], ["plain", [3]], ["plain", [4]]]
+            else:            # tL2 created first
+                trs, groups = [tL2, tL1, tH, tS1, tS2], [["plain", [0]], ["if", [[1], [2]], True], ["plain", [3]], ["plain", [4]]]
+            r = ["conflict", ["m", 0], ["m", 1], "L"] if form == "L" else ["conflict", ["m", 1], ["m", 0], "R"]
+            out.append(dict(methods=methods, transactions=trs, relations=[r], groups=groups, group_module=[0] * len(groups), mgroups=[], witness=False))
+    # (3) two ready-dependency sources
+    for variant in ("nest+explicit", "two explicit", "nest+explicit, source later"):
+        methods = [meth("M0")]
+        if variant == "two explicit":
+            trs = [tr("T0", []), tr("T1", []), tr("T2", [["call", 0, False, 0]])]
+            rels = [["before", ["t", 0], ["t", 2], True], ["before", ["t", 1], ["t", 2], True]]
+        elif variant == "nest+explicit":
+            trs = [tr("T0", []), tr("T1", [], nested=[dict(name="T1n", body=[["call", 0, False, 0]], under_if=False)])]
+            rels = [["before", ["t", 0], ["n", 1, 0], True]]
+        else:
+            trs = [tr("T0", [], nested=[dict(name="T0n", body=[["call", 0, False, 0]], under_if=False)]), tr("T1", [])]
+            rels = [["before", ["n", 0, 0], ["t", 1], True], ["before", ["t", 0], ["t", 1], True]]
+        out.append(dict(methods=methods, transactions=trs, relations=rels, groups=[["plain", [i]] for i in range(len(trs))],
+                        group_module=[0] * len(trs), mgroups=[], witness=False))
     return out
 
 
